@@ -458,6 +458,11 @@ func (k *checker) persist13Load(fn *ssa.Function, name string) {
 	metaP := fi.prov(S) + ".Metadata"
 	recv := fn.Params[0].Name()
 	construct := name + "#metadata-whole"
+	roles, okRoles := k.instRoles()
+	if !okRoles {
+		return
+	}
+	metaField := recv + "." + roles.metadata
 	// handed to the metadata store
 	var handed ssa.Instruction
 	ok := false
@@ -465,7 +470,7 @@ func (k *checker) persist13Load(fn *ssa.Function, name string) {
 		switch x := in.(type) {
 		case *ssa.Call:
 			args := x.Common().Args
-			if len(args) == 0 || !strings.HasPrefix(fi.prov(args[0]), recv+".metadata") {
+			if len(args) == 0 || !strings.HasPrefix(fi.prov(args[0]), metaField) {
 				return
 			}
 			for _, a := range args[1:] {
@@ -477,7 +482,7 @@ func (k *checker) persist13Load(fn *ssa.Function, name string) {
 				}
 			}
 		case *ssa.Store:
-			if strings.HasPrefix(fi.prov(x.Addr), recv+".metadata") && derives(x.Val, func(y ssa.Value) bool { return fi.prov(y) == metaP }) {
+			if strings.HasPrefix(fi.prov(x.Addr), metaField) && derives(x.Val, func(y ssa.Value) bool { return fi.prov(y) == metaP }) {
 				handed = x
 				if isCloneOf(fi, x.Val, metaP) {
 					ok = true
@@ -514,6 +519,10 @@ func (k *checker) persist13Save(fn *ssa.Function, name string) {
 		return
 	}
 	recv := fn.Params[0].Name()
+	roles, okRoles := k.instRoles()
+	if !okRoles {
+		return
+	}
 	var st *ssa.Store
 	ssau.AllInstrs(fn, func(in ssa.Instruction) {
 		if s, ok := in.(*ssa.Store); ok && fi.prov(s.Addr) == app.Name()+".Metadata" {
@@ -533,7 +542,7 @@ func (k *checker) persist13Save(fn *ssa.Function, name string) {
 			v = flow.StripAll(c.Call.Args[0])
 		}
 	}
-	if c, ok := v.(*ssa.Call); ok && len(c.Common().Args) == 1 && strings.HasPrefix(fi.prov(c.Common().Args[0]), recv+".metadata") {
+	if c, ok := v.(*ssa.Call); ok && len(c.Common().Args) == 1 && strings.HasPrefix(fi.prov(c.Common().Args[0]), recv+"."+roles.metadata) {
 		whole = true
 		if muts := k.mutationsOf(fi, fn, fi.prov(c)); len(muts) > 0 {
 			rep.violate("PERSIST-13", construct, ssau.PosOf(muts[0]), "entries of the instance's metadata are deleted / overwritten while saving")
